@@ -597,38 +597,43 @@ REPLAY_SCRIPT = textwrap.dedent(
                 with tempfile.TemporaryDirectory() as d:
                     t = os.path.join(d, "t"); open(t, "wb").write(b"OLD"); m0 = os.stat(t).st_mtime_ns
                     real_open, real_replace = builtins.open, os.replace
+                    hit = []           # the injected fault was actually raised (a store that never reaches the operation is not judged)
                     def fopen(p, *a, **k):
-                        if str(p).endswith(".STAGING") or str(p) == t:
-                            if fault == "open" and ("w" in (a[0] if a else k.get("mode", "r"))): raise OSError("injected open")
+                        # every file of this store's directory, whatever module opens it and whatever the staging file is called
+                        if isinstance(p, (str, os.PathLike)) and str(p).startswith(d + os.sep):
+                            mode = a[0] if a else k.get("mode", "r")
+                            if fault == "open" and "w" in mode: hit.append("open"); raise OSError("injected open")
                             f = real_open(p, *a, **k)
-                            if "w" in (a[0] if a else k.get("mode", "r")):
+                            if "w" in mode:
                                 class W:
                                     def __init__(s, f): s.f = f
                                     def __enter__(s): return s
                                     def write(s, x):
-                                        if fault == "write": s.f.write(x[:1]); s.f.flush(); raise OSError("injected write")
+                                        if fault == "write": s.f.write(x[:1]); s.f.flush(); hit.append("write"); raise OSError("injected write")
                                         return s.f.write(x)
-                                    def __exit__(s, *e):
+                                    def close(s):
+                                        was_open = not s.f.closed
                                         s.f.close()
-                                        if fault == "close": raise OSError("injected close")
+                                        if fault == "close" and was_open: hit.append("close"); raise OSError("injected close")
+                                    def __exit__(s, *e): s.close()
                                     def __getattr__(s, n): return getattr(s.f, n)
                                 return W(f)
                             return f
                         return real_open(p, *a, **k)
                     def freplace(a, b):
-                        if fault == "replace": raise OSError("injected replace")
+                        if fault == "replace" and str(b) == t: hit.append("replace"); raise OSError("injected replace")
                         return real_replace(a, b)
-                    fsmod.open = fopen; fsmod.os.replace = freplace
+                    builtins.open = fopen; os.replace = freplace
                     try:
                         try: cls(mk(t)).write(good)
                         except BaseException as e: err = e
                         else: err = None
                     finally:
-                        del fsmod.open; fsmod.os.replace = real_replace
+                        builtins.open = real_open; os.replace = real_replace
                     snap = snapshot(d)
-                    if cls is TouchFileStore and fault == "write": continue
+                    if not hit: continue
                     if err is None: bad.append((cls.__name__, mk.__name__, fault, "fault swallowed")); continue
-                    if snap.get("t") != b"OLD" or os.stat(t).st_mtime_ns != m0 or "t.STAGING" in snap:
+                    if snap.get("t") != b"OLD" or os.stat(t).st_mtime_ns != m0 or len(snap) != 1:
                         bad.append((cls.__name__, mk.__name__, "injected %s error -> target changed or staging left" % fault, snap))
     # a failure that is not an Exception (KeyboardInterrupt / SystemExit while writing) must clean up as well
     for mk in (str, pathlib.Path):
@@ -686,16 +691,20 @@ REPLAY_SCRIPT = textwrap.dedent(
                 cur = open(t, "rb").read(); m1 = os.stat(t).st_mtime_ns
                 if point == "after-rename":
                     ok = cur != old and m1 != m0 and (new is None or cur == new)
-                    if kind == "json": ok = ok and json.loads(cur) == {"k": [1, 2, 3] * 50}
-                    if kind == "pickle": ok = ok and pickle.loads(cur) == list(range(200))
+                    try:
+                        if kind == "json": ok = ok and json.loads(cur) == {"k": [1, 2, 3] * 50}
+                        if kind == "pickle": ok = ok and pickle.loads(cur) == list(range(200))
+                    except Exception: ok = False        # the target holds something that does not even decode
                 else:
                     ok = cur == old and m1 == m0
                 if not ok: bad.append((kind, "process death " + point, "target holds %r... mtime changed: %s" % (cur[:20], m1 != m0)))
                 # a staging file left by the killed process must not disturb the next write / read
                 cls2 = {"json": JsonFileStore, "pickle": PickleFileStore, "text": TextFileStore, "binary": BinaryFileStore}[kind]
                 v2 = {"json": [7], "pickle": (7,), "text": "seven", "binary": b"seven"}[kind]
-                st = cls2(t); st.write(v2)
-                if st.read() != v2 or os.path.exists(t + ".STAGING"): bad.append((kind, "write after a death " + point, sorted(os.listdir(d))))
+                try:
+                    st = cls2(t); st.write(v2); back = st.read()
+                except Exception as e: back = ("raised", repr(e))
+                if back != v2 or os.path.exists(t + ".STAGING"): bad.append((kind, "write after a death " + point, sorted(os.listdir(d)), repr(back)[:80]))
     for b in bad[:6]: print("C11 violated:", b)
     sys.exit(1 if bad else 0)
     '''
